@@ -14,6 +14,7 @@ GENERATORS = [
     ("statefacts", "StateFacts.lean", ["{repo}"]),
     ("evalir", "EvalIR.lean", ["{repo}"]),
     ("convir", "ConvIR.lean", ["{repo}"]),
+    ("runnerir", "RunnerIR.lean", ["{repo}"]),
 ]
 
 
@@ -771,14 +772,20 @@ PROPERTIES = {
 # regenerated facts per property (what the translators extract from the current source on every run, and the theorem that
 # decides it) — listed in the evidence next to the theorems
 _FACTS = {
-    "C03": ["Generated.StateFacts.storerOps (tools/statefacts): what the setters and Clear of InMemoryStorer do to the three maps == Props/C03Facts (setters_keep_one_type, clear_resets_every_map)"],
+    "C12": ["Generated.RunnerIR (tools/runnerir): the bodies of runner.go's methods (Next, the execute* helpers, RestoreAt, Snapshot, nextStatement) translated into the RunnerIR embedding and proved equal to the runner model (Props/C01IR: next_is_model, executeCommandStatement_is_model (stop clears the continuation), executeSetStatement_failure_writes_nothing)"],
+    "C11": ["Generated.RunnerIR (tools/runnerir): the bodies of runner.go's methods (Next, the execute* helpers, RestoreAt, Snapshot, nextStatement) translated into the RunnerIR embedding and proved equal to the runner model (Props/C01IR: next_is_model, incrementNodeTracking_is_model, executeJumpStatement_is_model)"],
+    "C01": ["Generated.RunnerIR (tools/runnerir): the bodies of runner.go's methods (Next, the execute* helpers, RestoreAt, Snapshot, nextStatement) translated into the RunnerIR embedding and proved equal to the runner model (Props/C01IR: next_is_model, next_pass_is_micro, executeIfStatement_is_model, executeCallStatement_is_model)"],
+    "C03": ["Generated.RunnerIR (tools/runnerir): the bodies of runner.go's methods (Next, the execute* helpers, RestoreAt, Snapshot, nextStatement) translated into the RunnerIR embedding and proved equal to the runner model (Props/C01IR: next_is_model, executeSetStatement_is_model)",
+            "Generated.StateFacts.storerOps (tools/statefacts): what the setters and Clear of InMemoryStorer do to the three maps == Props/C03Facts (setters_keep_one_type, clear_resets_every_map)"],
     "C02": ["Generated.EvalIR (tools/evalir): the whole of evaluator.go (evaluateExpression, evaluateBinaryOperation, evaluateFunctionCall, xor) translated into the GoIR embedding and proved equal to the model's eval for every expression, store and host (Props/C02IR.evaluateExpression_is_model)"],
     "C04": ["Generated.ConvIR (tools/convir): Value.ToString == the model's display for every value (Props/C19IR.valueToString_is_model)"],
     "C05": ["Generated.StateFacts.loadSteps (tools/statefacts): FromReader attaches the collecting error listener before anything is lexed and walks only after the early return on errors (Props/C05Facts)"],
     "C06": ["Generated.NumFacts.guardSrc (tools/numfacts): refusal conditions of checkedDice/checkedRandomRange == the model's guards under int64 wrap-around (Props/C09Facts)"],
-    "C07": ["Generated.StateFacts (tools/statefacts): every DialogueRunner field written after construction is written by RestoreAt; method-mutated fields are the model's containers (Props/C07Facts)"],
+    "C07": ["Generated.RunnerIR (tools/runnerir): the bodies of runner.go's methods (Next, the execute* helpers, RestoreAt, Snapshot, nextStatement) translated into the RunnerIR embedding and proved equal to the runner model (Props/C01IR: next_is_model, snapshot_is_model, restoreAt_is_model)",
+            "Generated.StateFacts (tools/statefacts): every DialogueRunner field written after construction is written by RestoreAt; method-mutated fields are the model's containers (Props/C07Facts)"],
     "C09": ["Generated.NumFacts.guardSrc / rngSrc (tools/numfacts): guards, radix, toRadix36, seed accumulation step, IntBetween == the model (Props/C09Facts)"],
-    "C10": ["Generated.ChanFacts (tools/chanfacts): per-call make with capacity >= 1, one send per path, select/default polls, nil assignments == Cfg.Good (Props/C10Chan.code_meets_hypotheses)",
+    "C10": ["Generated.RunnerIR (tools/runnerir): the bodies of runner.go's methods (Next, the execute* helpers, RestoreAt, Snapshot, nextStatement) translated into the RunnerIR embedding and proved equal to the runner model (Props/C01IR: next_is_model, executeCommandStatement_is_model)",
+            "Generated.ChanFacts (tools/chanfacts): per-call make with capacity >= 1, one send per path, select/default polls, nil assignments == Cfg.Good (Props/C10Chan.code_meets_hypotheses)",
             "Generated.NumFacts.durationSrc (tools/numfacts): secondsToDuration == Command.waitNanos for every double (Props/C10Facts)"],
     "C13": ["Generated.ConvIR (tools/convir): getProcessor, processSelect/Plural/Ordinal/NoMarkup, GetProperty, Value.toString, replacePlaceholders == the model for all property lists (Props/C13IR)",
             "Generated.NumFacts.ordinalSwitch (tools/numfacts): the switch of processOrdinal == Markup.ordinalCase for n >= 0 (Props/C13Facts)"],
